@@ -75,6 +75,37 @@ def metamorphic(cases, obs):
     return bad
 
 
+RULES_TTL = """@prefix sh: <http://www.w3.org/ns/shacl#> . @prefix ex: <http://ex.org/> .
+ex:R1 a sh:NodeShape ; sh:targetClass ex:C0 ; sh:rule [ a sh:TripleRule ; sh:subject sh:this ; sh:predicate ex:marked ; sh:object ex:Yes ] .
+ex:R2 a sh:NodeShape ; sh:targetSubjectsOf ex:p ; sh:rule [ a sh:TripleRule ; sh:subject sh:this ; sh:predicate ex:linked ; sh:object [ sh:path ex:p ] ] .
+ex:V1 a sh:NodeShape ; sh:targetNode %(nodes)s ; sh:property [ sh:path ex:marked ; sh:maxCount 0 ] .
+ex:V2 a sh:NodeShape ; sh:targetNode %(nodes)s ; sh:property [ sh:path ex:linked ; sh:minCount 1 ] .
+"""
+
+
+def rules_family(rng, n):
+    """advanced mode with focus_nodes only: every shape's rules fire on the nodes of F the shape targets, and on no others.
+    The shapes that report have static targets (sh:targetNode), so the target-rewritten shapes graph is the reference."""
+    import pyshacl
+    stats, fails = {"rule_selection_cases": 0, "rule_selection_nonconforming": 0}, []
+    for _ in range(n):
+        data, nodes, lits = S.gen_typed_data(rng, n_iri=rng.randint(3, 5), n_bn=0, n_lit=1, n_triples=rng.randint(4, 10))
+        data.bind("ex", EX)
+        iris = [x for x in nodes if isinstance(x, URIRef)]
+        sg = rdflib.Graph().parse(data=RULES_TTL % {"nodes": ", ".join(x.n3() for x in iris)}, format="turtle")
+        Fs = rng.sample(iris, rng.randint(1, min(3, len(iris))))
+        case = {"sg": sg, "data": data, "sel": {"F": Fs, "U": []}}
+        ref = S.run_validate(data, rewritten(case), advanced=True)
+        got = S.run_validate(data, sg, advanced=True, focus_nodes=[curie(x) if rng.random() < 0.3 else str(x) for x in Fs])
+        stats["rule_selection_cases"] += 1
+        stats["rule_selection_nonconforming"] += 1 if ref[0] == "ok" and not ref[1] else 0
+        if got[0] != ref[0] or (got[0] == "ok" and (got[1] != ref[1] or EC.keys(got) != EC.keys(ref))) or (got[0] == "err" and got[1] != ref[1]):
+            fails.append({"what": "advanced mode: focus_nodes=F gives another report than the shapes graph whose targets (of rule shapes too) are narrowed to F",
+                          "focus_nodes": [x.n3() for x in Fs], "shapes_ttl": sg.serialize(format="turtle"), "data_nt": sorted(" ".join(x.n3() for x in t) for t in data),
+                          "restricted_run": (got[1], EC.keys(got)) if got[0] == "ok" else got[:2], "reference": (ref[1], EC.keys(ref)) if ref[0] == "ok" else ref[:2]})
+    return stats, fails, []
+
+
 def main(tier, seed, replay=None):
     rng = F.rng_for(seed, PROP)
     cases = gen_cases(rng, tier)
@@ -88,7 +119,8 @@ def main(tier, seed, replay=None):
         c["model_opts"] = {"focus_nodes": [str(x) for x in c["sel"]["F"]]}
     return EC.standard_main(
         PROP, ["Props/C13.v"], tier, seed, cases,
-        rule="case = random nested shapes graph (anonymous and named references) x data x {focus_nodes=F (IRIs and CURIEs), use_shapes=U, both}; relation on the real code: report equals the report of the target-rewritten shapes graph (targets narrowed to F / other shapes' targets removed / U x F); each run also compared with the model of the selection logic",
+        rule="case = random nested shapes graph (anonymous and named references) x data x {focus_nodes=F (IRIs and CURIEs), use_shapes=U, both}; relation on the real code: report equals the report of the target-rewritten shapes graph (targets narrowed to F / other shapes' targets removed / U x F); each run also compared with the model of the selection logic; advanced mode: rule shapes + reporting shapes with static targets x focus_nodes=F = the target-rewritten shapes graph (rules fire only on the nodes of F their shape targets)",
         what="outcome differs from the model of the selection logic (Props.C13)",
         metamorphic=metamorphic, check_fn="SEL",
+        extra_checks=lambda: rules_family(F.rng_for(seed, PROP + "/rules"), 50 if tier == "quick" else 700),
     )
